@@ -337,6 +337,7 @@ StepExpr(s, e, rest) ==
          [s EXCEPT !.ctl = [i \in 1..Len(e.items) |-> E(e.items[i])] \o <<[t |-> "mkarr", n |-> Len(e.items)]>> \o rest]
     [] e.k = "obj" ->
          [s EXCEPT !.ctl = [i \in 1..Len(e.vals) |-> E(e.vals[i])] \o <<[t |-> "mkobj", keys |-> e.keys]>> \o rest]
+    [] e.k = "is" -> [s EXCEPT !.ctl = <<E(e.e), [t |-> "is", ty |-> e.ty]>> \o rest]
     [] e.k = "match" -> [s EXCEPT !.ctl = <<E(e.e), [t |-> "matchsel", cases |-> e.cases]>> \o rest]
     [] e.k = "idx" -> [s EXCEPT !.ctl = <<E(e.key), [t |-> "idxread", n |-> e.n]>> \o rest]
     [] e.k = "asgidx" ->
@@ -452,6 +453,17 @@ StepOp(s, it, rest) ==
     [] it.t = "or" ->
          IF Truthy(s.vs[1]) THEN [s EXCEPT !.ctl = rest, !.vs = <<VBool(TRUE)>> \o Tail(s.vs)]
          ELSE [s EXCEPT !.ctl = <<E(it.r), [t |-> "tobool"]>> \o rest, !.vs = Tail(s.vs)]
+    [] it.t = "is" ->      \* 3.6: the kind of the value against a type name; any other name: false
+         LET v == s.vs[1]
+             r == CASE it.ty = "null" -> v.t = "null"
+                    [] it.ty = "string" -> v.t = "str"
+                    [] it.ty = "bool" -> v.t = "bool"
+                    [] it.ty = "number" -> v.t = "num"
+                    [] it.ty = "array" -> v.t = "ref" /\ s.heap[v.id].t = "arr"
+                    [] it.ty = "object" -> v.t = "ref" /\ s.heap[v.id].t = "obj"
+                    [] it.ty = "unknown" -> v.t = "unset"
+                    [] OTHER -> FALSE          \* function, regex (no such values in the core), names that are no type
+         IN [s EXCEPT !.ctl = rest, !.vs = <<VBool(r)>> \o Tail(s.vs)]
     [] it.t = "tobool" -> [s EXCEPT !.ctl = rest, !.vs = <<VBool(Truthy(s.vs[1]))>> \o Tail(s.vs)]
     [] it.t = "drop" -> [s EXCEPT !.ctl = rest, !.vs = Tail(s.vs)]
     [] it.t = "store" ->    \* the value of an assignment is the assigned value; scalars are copied
